@@ -37,7 +37,7 @@ def plan(tier, seed):
 def floors(tier):
     return {"distinct_nontrivial": 500, "cls:n=0": 300, "cls:n=1": 300, "cls:n>=2": 300, "cls:form:entity": 200,
             "cls:form:set_of": 300, "cls:form:predform": 100, "cls:predform_with_further_properties": 40, "cls:ambient:query": 100, "cls:ambient:rule": 100, "cls:caching_off": 200,
-            "cls:equal_valued_distinct_objects": 300, "cls:domain_without_instances_of_the_type": 100, "cls:solutions_equal_by_value": 50, "cls:no_domain_registry_with_subclass_instances": 150,
+            "cls:equal_valued_distinct_objects": 300, "cls:domain_without_instances_of_the_type": 100, "cls:solutions_equal_by_value": 50, "cls:earlier_query_on_the_same_variables": 300, "cls:no_domain_registry_with_subclass_instances": 150,
             "re:The(@.*)?\\.enter": 0}
 
 
@@ -95,6 +95,7 @@ def cases(spec, ctx):
                 o["cls"] = rng.choice([0, 1, 2, 2])
         best["ambient"] = rng.choice(["none", "none", "query", "rule"])
         best["caching"] = rng.random() < 0.7
+        best["earlier_query_on_the_same_variables"] = rng.random() < 0.25
         yield best
 
 
@@ -137,7 +138,15 @@ def run(case, world):
                     q = the(term)
             xs = None
         else:
-            q, xs = H.build_query(case["kinds"], doms, case["cond"], case["sel"], form=case["form"], quant="the", register=False)
+            pre_xs = None
+            if case.get("earlier_query_on_the_same_variables") and not case.get("registry"):
+                # the variables are long-lived: an earlier query over them used the NEGATED description (spelled afresh) and was
+                # evaluated; this description is a new query over the same variable objects
+                ctx_q, pre_xs = H.build_query(case["kinds"], doms, ["not", case["cond"]], case["sel"], form=case["form"], quant="an",
+                                              register=False)
+                list(ctx_q.evaluate())
+            q, xs = H.build_query(case["kinds"], doms, case["cond"], case["sel"], form=case["form"], quant="the", register=False,
+                                  xs=pre_xs)
         for rep in range(3):
             with _ctx(case["ambient"]):
                 try:
@@ -167,6 +176,8 @@ def check_case(case, ctx):
         ctx.cls("cls:domain_without_instances_of_the_type")
     if case.get("registry"):
         ctx.cls("cls:no_domain_registry_with_subclass_instances")
+    elif case.get("earlier_query_on_the_same_variables") and case["form"] != "predform":
+        ctx.cls("cls:earlier_query_on_the_same_variables")
     n = len(exp_rows)
     ctx.cls("cls:n=0" if n == 0 else "cls:n=1" if n == 1 else "cls:n>=2")
     ctx.cls("cls:form:" + case["form"])
